@@ -109,3 +109,16 @@ PROPS["C20"] = dict(
     modelled="pkg/index: insertIndex, indexOf, HashSet.Add/Flush/Has, addToFanoutTable, NewHashSet; addToHashTable by its net effect",
     assumptions=["the os.File behaves as a byte array (Seek/Read/Write)", "addToHashTable's in-place shifting is not modelled step by step: its result is compared with the model's file image after every flush"],
 )
+
+PROPS["C15"] = dict(
+    lean_modules=["WrglModel.Props.C15"],
+    quick_n=400, thorough_n=6000,
+    rule="operation sequences (5..35 ops quick, ..65 thorough, then a full dump of refs and logs) of set / logged set / get / delete / "
+         "filter / filterKey / rename / copy / log read / list / bulk delete / bulk rename over 16 names containing '_', '%', case variants, "
+         "nested paths and prefixes of one another, on the real SQLite ref store; every return value compared step by step; "
+         "non-trivial = the sequence contains a prefix operation; distinct = distinct (op, input)",
+    modelled="pkg/ref/sql/store.go (Set, SetWithLog, Get, Delete, filterQuery/Filter/FilterKey, Rename, Copy, LogReader), logreader.go, "
+             "pkg/ref/refs.go (listRefs, DeleteAllRemoteRefs, RenameAllRemoteRefs)",
+    assumptions=["SQLite executes each statement/transaction atomically with the semantics modelled (upsert, PK conflict, NOT NULL, substr/length on ASCII names); validated by the correspondence runs",
+                 "ref names are ASCII"],
+)
